@@ -133,6 +133,10 @@ EvalParam(P, R, rid, p, add) ==
       [] p.kind = "oneof"  -> EvalOneOf(P, R, rid, p, 1, add, Empty)
       [] p.kind = "rec"    -> EvalRec(P, R, rid, p, 0, add, Empty)
 
+(* Failures a one-of does not contain: a BaseException that is not an Exception escapes every handler of   *)
+(* the engine, and a switch label without a case "fails the run with an error" (property C09).             *)
+Fatal(causes) == \E c \in causes : c[1] = "unknown_label" \/ IsBaseTok(c)
+
 (* candidates in declared order; candidate i+1 is demanded only when 1..i failed *)
 EvalOneOf(P, R, rid, p, i, add, acc) ==
     IF i > Len(p.cands)
@@ -140,7 +144,9 @@ EvalOneOf(P, R, rid, p, i, add, acc) ==
     ELSE LET e == EvalN(P, R, rid, p.cands[i], add)
          IN  IF e.r[1] = "V"
              THEN WithR(e.r, Merge(acc, Acc(e)))
-             ELSE EvalOneOf(P, R, rid, p, i + 1, add, Merge(acc, NoMust(Acc(e))))
+             ELSE IF e.r[1] = "F" /\ Fatal(e.r[2])
+                  THEN WithR(<<"F", {c \in e.r[2] : Fatal({c})}>>, Merge(acc, NoMust(Acc(e))))
+                  ELSE EvalOneOf(P, R, rid, p, i + 1, add, Merge(acc, NoMust(Acc(e))))
 
 (* k = number of re-iterations already made *)
 EvalRec(P, R, rid, p, k, add, acc) ==
